@@ -5,7 +5,12 @@ use crate::common::*;
 use crate::emu::*;
 use crate::refmodel::*;
 use emulator_8086_lib as lib;
+#[cfg(feature = "l0_direct")]
 use lib::instructions::{arithmetic as ar, bit_manipulation as bm};
+
+/// false when the harness had to be built without the direct calls of the instruction functions (their signatures in
+/// the working tree differ from what the L0 tables expect): the sweeps are then skipped and L1 / L3 decide
+pub const L0_DIRECT: bool = cfg!(feature = "l0_direct");
 use lib::util::interpreter_util::{ByteOpBinary, ByteOpUnary, WordOpBinary, WordOpUnary};
 use lib::VM;
 use rayon::prelude::*;
@@ -40,6 +45,9 @@ pub struct L0Fn {
 }
 
 pub fn bin_fns() -> Vec<L0Fn> {
+    #[cfg(not(feature = "l0_direct"))]
+    return Vec::new();
+    #[cfg(feature = "l0_direct")]
     vec![
         L0Fn { name: "byte_add", w: 8, kind: Kind::Bin(Bin::Add), imp: Imp::B8(ar::byte_add) },
         L0Fn { name: "byte_adc", w: 8, kind: Kind::Bin(Bin::Adc), imp: Imp::B8(ar::byte_adc) },
@@ -54,6 +62,9 @@ pub fn bin_fns() -> Vec<L0Fn> {
     ]
 }
 pub fn un_fns() -> Vec<L0Fn> {
+    #[cfg(not(feature = "l0_direct"))]
+    return Vec::new();
+    #[cfg(feature = "l0_direct")]
     vec![
         L0Fn { name: "byte_inc", w: 8, kind: Kind::Un(Un::Inc), imp: Imp::U8(ar::byte_inc) },
         L0Fn { name: "byte_dec", w: 8, kind: Kind::Un(Un::Dec), imp: Imp::U8(ar::byte_dec) },
@@ -64,6 +75,9 @@ pub fn un_fns() -> Vec<L0Fn> {
     ]
 }
 pub fn logic_fns() -> Vec<L0Fn> {
+    #[cfg(not(feature = "l0_direct"))]
+    return Vec::new();
+    #[cfg(feature = "l0_direct")]
     vec![
         L0Fn { name: "byte_and", w: 8, kind: Kind::Logic(Logic::And), imp: Imp::B8(bm::byte_and) },
         L0Fn { name: "byte_or", w: 8, kind: Kind::Logic(Logic::Or), imp: Imp::B8(bm::byte_or) },
@@ -76,6 +90,9 @@ pub fn logic_fns() -> Vec<L0Fn> {
     ]
 }
 pub fn shift_fns() -> Vec<L0Fn> {
+    #[cfg(not(feature = "l0_direct"))]
+    return Vec::new();
+    #[cfg(feature = "l0_direct")]
     vec![
         L0Fn { name: "byte_sal", w: 8, kind: Kind::Sh(Sh::Shl), imp: Imp::B8(bm::byte_sal) },
         L0Fn { name: "byte_shr", w: 8, kind: Kind::Sh(Sh::Shr), imp: Imp::B8(bm::byte_shr) },
@@ -94,6 +111,9 @@ pub fn shift_fns() -> Vec<L0Fn> {
     ]
 }
 pub fn md_fns() -> Vec<L0Fn> {
+    #[cfg(not(feature = "l0_direct"))]
+    return Vec::new();
+    #[cfg(feature = "l0_direct")]
     vec![
         L0Fn { name: "byte_mul", w: 8, kind: Kind::Md(MulDiv::Mul), imp: Imp::U8(ar::byte_mul) },
         L0Fn { name: "byte_imul", w: 8, kind: Kind::Md(MulDiv::Imul), imp: Imp::U8(ar::byte_imul) },
@@ -106,6 +126,9 @@ pub fn md_fns() -> Vec<L0Fn> {
     ]
 }
 pub fn adj_fns() -> Vec<L0Fn> {
+    #[cfg(not(feature = "l0_direct"))]
+    return Vec::new();
+    #[cfg(feature = "l0_direct")]
     vec![
         L0Fn { name: "aaa", w: 8, kind: Kind::Adj(Adj::Aaa), imp: Imp::S(ar::aaa) },
         L0Fn { name: "aas", w: 8, kind: Kind::Adj(Adj::Aas), imp: Imp::S(ar::aas) },
